@@ -132,21 +132,20 @@ Proof.
 Qed.
 
 (* ------------------------------------------------------------------ EqualConstant / NotEqualConstant *)
-Lemma EqualConstant_general wa v a : 1 <= wa -> fits wa a -> (wa = 1 -> fits 1 v) ->
-  EqualConstant_m wa 1 v a = b2z (a =? v mod 2 ^ wa).
+(* every constant, also one that does not fit the operand: it is compared modulo 2^wa *)
+Lemma EqualConstant_general wa v a : 1 <= wa -> fits wa a -> EqualConstant_m wa 1 v a = b2z (a =? v mod 2 ^ wa).
 Proof.
-  intros Hwa Ha Hv1. unfold EqualConstant_m. destruct (Z.eqb_spec wa 1) as [-> | Hne].
-  - apply fits1_is_bit in Ha. specialize (Hv1 eq_refl). apply fits1_is_bit in Hv1.
-    destruct Hv1 as [-> | ->]; cbn [Z.eqb].
-    + rewrite Not1_bit by auto. destruct Ha as [-> | ->]; reflexivity.
+  intros Hwa Ha. unfold EqualConstant_m. destruct (Z.eqb_spec wa 1) as [-> | Hne].
+  - apply fits1_is_bit in Ha. change (2 ^ 1) with 2. rewrite land_1_odd, mod2_odd.
+    destruct (Z.odd v); cbn [b2z Z.eqb].
     + rewrite Buf_char. destruct Ha as [-> | ->]; reflexivity.
+    + rewrite Not1_bit by auto. destruct Ha as [-> | ->]; reflexivity.
   - rewrite Minterm_bits by lia. rewrite (fits_mod wa a) by (auto; lia). reflexivity.
 Qed.
 Lemma EqualConstant_correct wa v a : 1 <= wa -> fits wa a -> fits wa v -> EqualConstant_m wa 1 v a = equal_spec a v.
 Proof.
   intros Hwa Ha Hv. rewrite EqualConstant_general; auto.
-  - rewrite (fits_mod wa v) by (auto; lia). reflexivity.
-  - intros ->. exact Hv.
+  rewrite (fits_mod wa v) by (auto; lia). reflexivity.
 Qed.
 Lemma NotEqualConstant_correct wa v a : 1 <= wa -> fits wa a -> fits wa v ->
   NotEqualConstant_m wa 1 v a = not_equal_spec a v.
